@@ -1596,7 +1596,15 @@ impl Config {
         }
     }
     pub fn honest(&self) -> &Value {
-        self.honest.get_or_init(|| (self.honest_fn)())
+        // The honest proof is produced on a one-thread pool: proof-of-work grinding searches with
+        // `find_any`, so on several threads the witness -- and with it the transcript and every
+        // sampled query index -- differs from run to run.  Outcomes that depend on a sampled index
+        // (a copied query proof opening at the index sampled for the extra query) would then
+        // differ between two runs of the same seed.
+        self.honest.get_or_init(|| match rayon::ThreadPoolBuilder::new().num_threads(1).build() {
+            Ok(pool) => pool.install(|| (self.honest_fn)()),
+            Err(_) => (self.honest_fn)(),
+        })
     }
     pub fn eval(&self, v: &Value) -> Result<Eval, String> {
         (self.eval_fn)(v)
